@@ -450,6 +450,9 @@ func Check(c Case) *kit.Violation {
 			op.Client = &http.Client{Transport: &transport{"operation-client", e}}
 			if call.OpClientBare {
 				op.Client = &http.Client{Timeout: 30 * time.Second}
+				if i%2 == 1 {
+					op.Client = http.DefaultClient // the commonest client without a Transport: a client like any other (r10)
+				}
 				bareMu.Lock()
 				bareClients[i] = op.Client
 				bareMu.Unlock()
